@@ -15,30 +15,37 @@ import (
 type wsElem struct {
 	open, close string
 	free        bool   // inner text may vary
+	nonEmpty    bool   // the empty inner is another family's subject (script)
 	fixed       string // inner when !free
 }
 
-func we(name string) wsElem { return wsElem{"<" + name + ">", "</" + name + ">", true, ""} }
+func el(open, close string, free bool, fixed string) wsElem {
+	return wsElem{open: open, close: close, free: free, fixed: fixed}
+}
+
+func we(name string) wsElem {
+	return wsElem{open: "<" + name + ">", close: "</" + name + ">", free: true}
+}
 
 var wsElems = map[string]wsElem{
 	// inline
-	"span": we("span"), "b": we("b"), "a": {`<a href=u>`, "</a>", true, ""}, "label": we("label"), "x-custom": we("x-custom"),
-	"ins": we("ins"), "q": we("q"), "i": we("i"), "noscript": we("noscript"), "ruby": {"<ruby>r<rt>", "</rt></ruby>", true, ""},
+	"span": we("span"), "b": we("b"), "a": el(`<a href=u>`, "</a>", true, ""), "label": we("label"), "x-custom": we("x-custom"),
+	"ins": we("ins"), "q": we("q"), "i": we("i"), "noscript": we("noscript"), "ruby": el("<ruby>r<rt>", "</rt></ruby>", true, ""),
 	// block
-	"div": we("div"), "p": we("p"), "h1": we("h1"), "address": we("address"), "pre": we("pre"), "ul": {"<ul><li>", "</li></ul>", true, ""},
-	"table": {"<table><tbody><tr><td>", "</td></tr></tbody></table>", true, ""}, "dl": {"<dl><dt>", "</dt><dd>d</dd></dl>", true, ""},
-	"details": {"<details><summary>", "</summary></details>", true, ""}, "fieldset": {"<fieldset><legend>", "</legend></fieldset>", true, ""},
+	"div": we("div"), "p": we("p"), "h1": we("h1"), "address": we("address"), "pre": we("pre"), "ul": el("<ul><li>", "</li></ul>", true, ""),
+	"table": el("<table><tbody><tr><td>", "</td></tr></tbody></table>", true, ""), "dl": el("<dl><dt>", "</dt><dd>d</dd></dl>", true, ""),
+	"details": el("<details><summary>", "</summary></details>", true, ""), "fieldset": el("<fieldset><legend>", "</legend></fieldset>", true, ""),
 	// break
-	"br": {"<br>", "", false, ""}, "hr": {"<hr>", "", false, ""}, "wbr": {"<wbr>", "", false, ""},
+	"br": el("<br>", "", false, ""), "hr": el("<hr>", "", false, ""), "wbr": el("<wbr>", "", false, ""),
 	// atomic inline
-	"button": we("button"), "img": {`<img src=i alt=i>`, "", false, ""}, "input": {"<input>", "", false, ""},
-	"select": {"<select>", "</select>", false, "<option>a</option>"}, "textarea": we("textarea"), "svg": {"<svg>", "</svg>", false, "<g/>"},
-	"math": {"<math>", "</math>", false, "<mi>x</mi>"}, "video": {`<video src=v>`, "</video>", true, ""}, "iframe": {`<iframe src=u>`, "</iframe>", false, ""},
-	"marquee": we("marquee"), "meter": {`<meter value=1>`, "</meter>", true, ""}, "object": {`<object data=u>`, "</object>", true, ""},
-	"canvas": we("canvas"), "audio": {`<audio src=v>`, "</audio>", true, ""}, "progress": we("progress"),
+	"button": we("button"), "img": el(`<img src=i alt=i>`, "", false, ""), "input": el("<input>", "", false, ""),
+	"select": el("<select>", "</select>", false, "<option>a</option>"), "textarea": we("textarea"), "svg": el("<svg>", "</svg>", false, "<g/>"),
+	"math": el("<math>", "</math>", false, "<mi>x</mi>"), "video": el(`<video src=v>`, "</video>", true, ""), "iframe": el(`<iframe src=u>`, "</iframe>", false, ""),
+	"marquee": we("marquee"), "meter": el(`<meter value=1>`, "</meter>", true, ""), "object": el(`<object data=u>`, "</object>", true, ""),
+	"canvas": we("canvas"), "audio": el(`<audio src=v>`, "</audio>", true, ""), "progress": we("progress"),
 	// not rendered
-	"script": we("script"), "template": we("template"), "datalist": {`<datalist id=d>`, "</datalist>", false, "<option>a</option>"},
-	"link": {`<link itemprop=a href=b>`, "", false, ""}, "meta": {`<meta itemprop=a content=b>`, "", false, ""},
+	"script": {open: "<script>", close: "</script>", free: true, nonEmpty: true}, "template": we("template"), "datalist": el(`<datalist id=d>`, "</datalist>", false, "<option>a</option>"),
+	"link": el(`<link itemprop=a href=b>`, "", false, ""), "meta": el(`<meta itemprop=a content=b>`, "", false, ""),
 }
 
 var slotFull = []string{"", "a", " ", " a", "a ", " a "}
@@ -47,9 +54,13 @@ func wsSkeleton(wrapOpen, wrapClose string, a, b wsElem, outer0, inner, outer4 [
 	s1s, s3s := inner, inner
 	if !a.free {
 		s1s = []string{a.fixed}
+	} else if a.nonEmpty {
+		s1s = inner[1:]
 	}
 	if !b.free {
 		s3s = []string{b.fixed}
+	} else if b.nonEmpty {
+		s3s = inner[1:]
 	}
 	for _, s0 := range outer0 {
 		for _, s1 := range s1s {
@@ -74,66 +85,73 @@ func wsSkeleton(wrapOpen, wrapClose string, a, b wsElem, outer0, inner, outer4 [
 
 func runWhitespace(c *core.Check) {
 	th := c.Thorough()
-	first := []string{"span", "a", "b", "label", "noscript", "button", "img", "input", "select", "textarea", "svg", "script", "template", "br", "wbr", "marquee", "x-custom", "q"}
-	second := []string{"div", "p", "span", "pre", "ul", "table", "h1", "button", "br", "script"}
+	first := []string{"span", "a", "noscript", "button", "img", "input", "select", "textarea", "svg", "script", "template", "br", "marquee", "q"}
+	second := []string{"div", "p", "span", "pre", "button", "br", "script"}
 	if th {
-		first = append(first, "ins", "i", "ruby", "math", "video", "iframe", "meter", "object", "canvas", "audio", "progress", "datalist", "link", "meta", "hr",
-			"div", "p", "h1", "address", "pre", "ul", "table", "dl", "details", "fieldset")
-		second = append(second, "a", "b", "label", "noscript", "img", "input", "select", "textarea", "svg", "template", "wbr", "marquee", "x-custom", "q",
-			"address", "dl", "details", "fieldset", "hr", "math", "video", "iframe")
+		first = append(first, "b", "label", "wbr", "x-custom", "ins", "i", "ruby", "math", "video", "iframe", "meter", "object", "canvas", "hr", "div", "p")
+		second = append(second, "ul", "table", "h1", "a", "noscript", "img", "input", "select", "textarea", "svg", "template", "marquee", "q")
 	}
 	outer0, outer4 := []string{"", "a", "a "}, []string{"", "a", " a"}
 	if th {
 		outer0, outer4 = slotFull, slotFull
 	}
-	bound := fmt.Sprintf("skeleton S0 <A> S1 </A> S2 <B> S3 </B> S4 in <div>…</div> (body fragment)%s: A over %d and B over %d representatives of the inline/block/break/atomic/not-rendered classes; inner slots over {'', a, ' ', ' a', 'a ', ' a '}, outer slots over %d values; spaces as space%s",
-		map[bool]string{false: "", true: ", bare in body and in <span>…</span>"}[th], len(first), len(second), len(outer0), map[bool]string{false: "", true: " and, substituted, as newline"}[th])
+	bound := fmt.Sprintf("skeleton S0 <A> S1 </A> S2 <B> S3 </B> S4 in <div>…</div> (body fragment)%s; B nested in A for inline/atomic/not-rendered pairs: A over %d and B over %d representatives of the inline/block/break/atomic/not-rendered classes; inner slots over {'', a, ' ', ' a', 'a ', ' a '}, outer slots over %d values; spaces as space%s",
+		map[bool]string{false: "", true: ", and for the quick-tier representatives bare in body and in <span>…</span>"}[th], len(first), len(second), len(outer0), map[bool]string{false: "", true: " and, substituted, as newline"}[th])
 	runFamily(c, "whitespace", bound, 0, func(emit func(ctx, text string) bool) {
-		wraps := [][2]string{{"<div>", "</div>"}}
+		quickFirst, quickSecond := first, second
 		if th {
-			wraps = append(wraps, [2]string{"", ""}, [2]string{"<span>", "</span>"})
+			quickFirst, quickSecond = first[:14], second[:7]
 		}
-		for wi, w := range wraps {
-			for _, an := range first {
-				for _, bn := range second {
-					o0, o4 := outer0, outer4
-					if wi > 0 {
-						o0, o4 = []string{"", "a", "a "}, []string{"", "a", " a"}
-					}
-					nls := []bool{false}
-					if th && wi == 0 {
-						nls = []bool{false, true}
-					}
-					for _, nl := range nls {
-						if !wsSkeleton(w[0], w[1], wsElems[an], wsElems[bn], o0, slotFull, o4, nl, func(d string) bool { return emit("body", d) }) {
-							return
-						}
+		type pass struct {
+			wrap          [2]string
+			first, second []string
+			o0, o4        []string
+			nl            bool
+		}
+		small0, small4 := []string{"", "a", "a "}, []string{"", "a", " a"}
+		passes := []pass{{[2]string{"<div>", "</div>"}, first, second, outer0, outer4, false}}
+		if th {
+			passes = append(passes,
+				pass{[2]string{"<div>", "</div>"}, first, second, small0, small4, true},
+				pass{[2]string{"", ""}, quickFirst, quickSecond, small0, small4, false},
+				pass{[2]string{"<span>", "</span>"}, quickFirst, quickSecond, small0, small4, false})
+		}
+		for _, p := range passes {
+			for _, an := range p.first {
+				for _, bn := range p.second {
+					if !wsSkeleton(p.wrap[0], p.wrap[1], wsElems[an], wsElems[bn], p.o0, slotFull, p.o4, p.nl, func(d string) bool { return emit("body", d) }) {
+						return
 					}
 				}
 			}
 		}
-		// nesting: A inside B and B inside A for inline/atomic pairs
-		for _, an := range first {
-			for _, bn := range first {
+		// nesting: B inside A for inline/atomic/not-rendered pairs
+		outerPairs := [][2]string{{"a", "a"}, {"a ", " a"}}
+		nestA, nestB := []string{"span", "a", "button", "noscript", "marquee", "q", "template"}, []string{"span", "b", "button", "img", "input", "br", "script", "template", "noscript", "svg"}
+		if th {
+			outerPairs = append(outerPairs, [2]string{"a", " a"}, [2]string{"a ", "a"})
+			nestA, nestB = first[:14], first
+		}
+		for _, an := range nestA {
+			for _, bn := range nestB {
 				a, b := wsElems[an], wsElems[bn]
-				if !a.free || !b.free || an == bn || an == "script" || an == "textarea" || an == "template" && false {
-					continue
+				if !a.free || an == bn || an == "script" || an == "textarea" || bn == "div" || bn == "p" || bn == "hr" {
+					continue // raw text holds no elements; the outer elements take phrasing content only
 				}
 				if interactive[an] && interactive[bn] {
 					continue
 				}
-				for _, s0 := range []string{"a", "a "} {
+				for _, op := range outerPairs {
 					for _, s1 := range slotFull {
 						for _, s2 := range slotFull {
-							bi := []string{s2}
 							if !b.free {
-								bi = []string{b.fixed}
+								s2 = b.fixed
+							} else if b.nonEmpty && s2 == "" {
+								continue
 							}
 							for _, s3 := range slotFull {
-								for _, s4 := range []string{"a", " a"} {
-									if !emit("body", "<div>"+s0+a.open+s1+b.open+bi[0]+b.close+s3+a.close+s4+"</div>") {
-										return
-									}
+								if !emit("body", "<div>"+op[0]+a.open+s1+b.open+s2+b.close+s3+a.close+op[1]+"</div>") {
+									return
 								}
 							}
 						}
